@@ -568,3 +568,305 @@ Proof.
   intros. destruct (trun_state_log v ops _ _ (tinit_inv mp mt) (linv_init mp mt)) as [ls [R [Ho _]]].
   exists ls. split; [exact R|exact Ho].
 Qed.
+
+(* ------------------------------------------------------------------ generic: a property of the kept connections *)
+Lemma flush_conns_forall : forall f (Q P : tconn -> Prop),
+  (forall c u, conn_ok c -> Q c -> tr_closed (fst (f c u)) = false -> P (tr_c (fst (f c u)))) ->
+  (forall c u, conn_ok c -> rrel c u (fst (f c u))) ->
+  forall l used, Forall conn_ok l -> Forall Q l -> Forall P (fa_keep (flush_conns f l used)).
+Proof.
+  intros f Q P HP Hr. induction l as [|c l IH]; intros used HF HQ; cbn [flush_conns]; [constructor|].
+  inversion HF as [|? ? Hok HF']; subst. inversion HQ as [|? ? Hq HQ']; subst.
+  specialize (HP c used Hok Hq). destruct (f c used) as [r fl]. cbn [fst] in HP. cbn [fa_keep].
+  destruct (tr_closed r); [apply IH; assumption|]. constructor; [apply HP; reflexivity|apply IH; assumption].
+Qed.
+
+(* ------------------------------------------------------------------ C11_limit (repaired code) *)
+Definition wlim (mp mt : Z) (w : twork) : Prop :=
+  (mp > 0 -> qlen (w_c w) < mp) /\ (mt > 0 -> w_used w < mt).
+
+Lemma limit_loop_exit : forall fuel mp mt w, (length (tc_queue (w_c w)) <= fuel)%nat -> conn_ok (w_c w) ->
+  tc_queue (w_c (limit_loop fuel mp mt w)) = [] \/
+  limit_hit mp mt (tc_pages (w_c (limit_loop fuel mp mt w))) (w_used (limit_loop fuel mp mt w)) = false.
+Proof.
+  induction fuel as [|f IH]; intros mp mt w Hl Hok; cbn [limit_loop].
+  - left. destruct (tc_queue (w_c w)); [reflexivity|cbn [length] in Hl; lia].
+  - destruct (tc_queue (w_c w)) as [|p rest] eqn:E; [left; exact E|].
+    destruct (limit_hit mp mt (tc_pages (w_c w)) (w_used w)) eqn:Eh; [|right; exact Eh].
+    apply IH.
+    + unfold add_next. rewrite E. destruct (pop_page (tc_next (w_c w)) p). cbn. cbn [length] in Hl. lia.
+    + apply (add_next_rel w Hok).
+Qed.
+
+Lemma insert_lim : forall v mp mt seq len e ts w w', v_limit v = true -> conn_ok (w_c w) ->
+  (mt > 0 -> w_used w - qlen (w_c w) < mt) ->
+  insert_into_conn v mp mt seq len e ts w = Some w' -> wlim mp mt w'.
+Proof.
+  intros v mp mt seq len e ts w w' Hv H Hb. unfold insert_into_conn.
+  destruct (match tc_queue (w_c w) with [] => false | p :: _ => tp_seq p =? tc_next (w_c w) end); [discriminate|].
+  destruct (traverse (tc_queue (w_c w)) seq) as [a b] eqn:E. apply traverse_app in E.
+  set (ps := tpages_of seq len ts e).
+  set (c1 := set_queue (w_c w) (tc_pages (w_c w) + zlen ps) (a ++ ps ++ b) (tc_next (w_c w))).
+  set (w1 := mkW c1 (w_used w + zlen ps) (w_ret w)).
+  assert (X1 : w_used w1 - qlen (w_c w1) = w_used w - qlen (w_c w) /\ conn_ok (w_c w1)).
+  { unfold conn_ok, qlen in *. cbn. rewrite E in *. rewrite !zlen_app in *. split; lia. }
+  destruct X1 as [X1 Hok1]. rewrite Hv. intros Hs. inversion Hs; subst; clear Hs.
+  pose proof (limit_loop_rel (length (tc_queue c1)) mp mt w1 Hok1) as R.
+  pose proof (limit_loop_exit (length (tc_queue c1)) mp mt w1 (Nat.le_refl _) Hok1) as X.
+  set (w2 := limit_loop (length (tc_queue c1)) mp mt w1) in *.
+  unfold wrel in R. destruct R as [R1 [R2 _]]. unfold wlim. unfold conn_ok in R2.
+  change (limit_loop (length (a ++ ps ++ b)) mp mt w1) with w2.
+  clearbody w2. clearbody w1. clear E.
+  destruct X as [X|X].
+  - assert (Q : qlen (w_c w2) = 0) by (unfold qlen; rewrite X; reflexivity). split; lia.
+  - unfold limit_hit in X. apply orb_false_iff in X. destruct X as [Xa Xb]. split; lia.
+Qed.
+
+Definition rlim (mp mt : Z) (r : tres) : Prop :=
+  (tr_closed r = false -> mp > 0 -> qlen (tr_c r) < mp) /\ (mt > 0 -> tr_used r < mt).
+
+Lemma rlim_of : forall mp mt w r, conn_ok (w_c w) -> wlim mp mt w -> rrel (w_c w) (w_used w) r -> rlim mp mt r.
+Proof.
+  unfold wlim, rrel, rlim. intros mp mt w r Hok [W1 W2] [_ [_ [_ R]]]. pose proof (qlen_nonneg (w_c w)).
+  destruct (tr_closed r); split; intros; try discriminate; lia.
+Qed.
+
+Lemma assemble_locked_lim : forall v st c0 seq syn fin rst len ts r, v_limit v = true -> conn_ok c0 ->
+  (ts_maxPer st > 0 -> qlen c0 < ts_maxPer st) -> (ts_maxTotal st > 0 -> ts_used st < ts_maxTotal st) ->
+  assemble_locked v st c0 seq syn fin rst len ts = Some r -> rlim (ts_maxPer st) (ts_maxTotal st) r.
+Proof.
+  intros v st c0 seq syn fin rst len ts r Hv H Hp Ht. unfold assemble_locked.
+  set (c := if tc_seen c0 <? ts then mkTC (tc_key c0) (tc_sid c0) (tc_pages c0) (tc_queue c0) (tc_next c0) ts else c0).
+  assert (Hc : conn_ok c /\ qlen c = qlen c0).
+  { unfold c. destruct (tc_seen c0 <? ts); unfold conn_ok, qlen in *; cbn; auto. }
+  destruct Hc as [Hok Hq]. pose proof (qlen_nonneg c).
+  set (u := ts_used st) in *. set (mp := ts_maxPer st) in *. set (mt := ts_maxTotal st) in *.
+  match goal with |- match ?X with _ => _ end = _ -> _ => set (ow := X) end.
+  assert (Hw : forall w, ow = Some w -> wlim mp mt w /\ conn_ok (w_c w)).
+  { intros w. unfold ow.
+    destruct (tc_next c =? INVALID).
+    - destruct syn.
+      + intros Hx. inversion Hx; subst. unfold wlim, conn_ok, qlen in *. cbn. intuition lia.
+      + intros Hx. split; [apply (insert_lim v mp mt seq len (rst || fin) ts (mkW c u []) w Hv Hok); [cbn [w_used w_c]; lia|exact Hx]|].
+        apply (insert_rel _ _ _ _ _ _ _ (mkW c u []) w Hok Hx).
+    - destruct (tdiff (tc_next c) _ >? 0).
+      + intros Hx. split; [apply (insert_lim v mp mt seq len (rst || fin) ts (mkW c u []) w Hv Hok); [cbn [w_used w_c]; lia|exact Hx]|].
+        apply (insert_rel _ _ _ _ _ _ _ (mkW c u []) w Hok Hx).
+      + destruct (span_len (tc_next c) _ len) as [l nx]. intros Hx. inversion Hx; subst.
+        unfold wlim, conn_ok, qlen in *. cbn. intuition lia. }
+  destruct ow as [w|]; [|discriminate]. destruct (Hw w eq_refl) as [W Wok].
+  destruct (w_ret w) eqn:Er; intros Hr; inversion Hr; subst; clear Hr.
+  - unfold rlim, wlim in *. cbn. intuition.
+  - eapply rlim_of; [exact Wok|exact W|]. apply send_rel. apply wrel_refl. exact Wok.
+Qed.
+
+Definition limv (st : tstate) : Prop :=
+  (ts_maxPer st > 0 -> Forall (fun c => qlen c < ts_maxPer st) (ts_conns st)) /\
+  (ts_maxTotal st > 0 -> ts_used st < ts_maxTotal st).
+
+Lemma tassemble_lim : forall v st k seq syn fin rst len ts, v_limit v = true -> tinv st -> limv st ->
+  limv (fst (tassemble v st k seq syn fin rst len ts)).
+Proof.
+  intros v st k seq syn fin rst len ts Hv [Hu HF] [Lp Lt]. unfold tassemble.
+  destruct (negb syn && negb fin && negb rst && (len =? 0)); [split; assumption|].
+  destruct (split_key k (ts_conns st)) as [[[pre c] post]|] eqn:Es.
+  - apply split_key_spec in Es. destruct Es as [El _].
+    assert (Hc : conn_ok c). { rewrite El in HF. apply Forall_app in HF. destruct HF as [_ HF]. inversion HF; assumption. }
+    destruct (assemble_locked v st c seq syn fin rst len ts) as [r|] eqn:Ea; cbn [fst].
+    + assert (Hpc : ts_maxPer st > 0 -> qlen c < ts_maxPer st).
+      { intros Hm. specialize (Lp Hm). rewrite El in Lp. apply Forall_app in Lp. destruct Lp as [_ Lp]. inversion Lp; assumption. }
+      destruct (assemble_locked_lim _ _ _ _ _ _ _ _ _ _ Hv Hc Hpc Lt Ea) as [R1 R2].
+      unfold put_back, limv. destruct (tr_closed r); cbn [ts_conns ts_used ts_maxPer ts_maxTotal]; (split; [|exact R2]);
+        intros Hm; specialize (Lp Hm); rewrite El in Lp; apply Forall_app in Lp; destruct Lp as [P1 P2]; inversion P2; subst;
+        apply Forall_app; (split; [assumption|]); [assumption|constructor; [apply R1; [reflexivity|exact Hm]|assumption]].
+    + unfold limv, dead_of. cbn. split; assumption.
+  - destruct (negb syn && (len =? 0)); [split; assumption|].
+    destruct (take_free st) as [[[inh free1] fresh1] alloc1].
+    set (c := mkTC k (ts_nstreams st + 1) 0 [] INVALID (if v_lastseen v then ts else inh)).
+    assert (Hc : conn_ok c) by (unfold conn_ok, qlen; reflexivity).
+    destruct (assemble_locked v st c seq syn fin rst len ts) as [r|] eqn:Ea; cbn [fst].
+    + assert (Hpc : ts_maxPer st > 0 -> qlen c < ts_maxPer st) by (unfold qlen; cbn; lia).
+      destruct (assemble_locked_lim _ _ _ _ _ _ _ _ _ _ Hv Hc Hpc Lt Ea) as [R1 R2].
+      unfold put_back, limv. destruct (tr_closed r); cbn [ts_conns ts_used ts_maxPer ts_maxTotal]; (split; [|exact R2]);
+        intros Hm; specialize (Lp Hm); [rewrite app_nil_r; exact Lp|].
+      apply Forall_app. split; [exact Lp|]. constructor; [apply R1; [reflexivity|exact Hm]|constructor].
+    + unfold limv, dead_of. cbn. split; assumption.
+Qed.
+
+Lemma flush_lim : forall f st a b, (forall c u, conn_ok c -> rrel c u (fst (f c u))) -> tinv st -> limv st ->
+  let acc := flush_conns f (ts_conns st) (ts_used st) in
+  limv (mkTS (fa_keep acc) a (ts_fresh st) (ts_alloc st) (fa_used acc) (ts_maxPer st) (ts_maxTotal st) (ts_nstreams st) b).
+Proof.
+  intros f st a b Hr [Hu HF] [Lp Lt]. cbn zeta. unfold limv. cbn [ts_conns ts_used ts_maxPer ts_maxTotal]. split.
+  - intros Hm. apply (flush_conns_forall f (fun c => qlen c < ts_maxPer st) (fun c => qlen c < ts_maxPer st)); [|exact Hr|exact HF|exact (Lp Hm)].
+    intros c u Hok Hq Hc. pose proof (Hr c u Hok) as R. unfold rrel in R. rewrite Hc in R. lia.
+  - intros Hm. destruct (flush_conns_inv f Hr (ts_conns st) (ts_used st) HF) as [I1 [_ I3]]. specialize (Lt Hm). lia.
+Qed.
+
+Lemma tstep_lim : forall v st o, v_limit v = true -> tinv st -> limv st -> limv (fst (tstep v st o)).
+Proof.
+  intros v st o Hv Hi L. unfold tstep. destruct (ts_dead st); [exact L|].
+  destruct o.
+  - apply tassemble_lim; assumption.
+  - unfold tflush. cbn [fst]. apply flush_lim; [intros; apply flush_conn_rel; assumption|exact Hi|exact L].
+  - unfold tflush_all. cbn [fst]. apply flush_lim; [intros; apply flush_all_conn_rel; assumption|exact Hi|exact L].
+Qed.
+
+Lemma tstep_cfg : forall v st o, ts_maxPer (fst (tstep v st o)) = ts_maxPer st /\ ts_maxTotal (fst (tstep v st o)) = ts_maxTotal st.
+Proof.
+  intros v st o. unfold tstep. destruct (ts_dead st); [split; reflexivity|].
+  destruct o; [|split; reflexivity|split; reflexivity].
+  unfold tassemble. destruct (negb syn && negb fin && negb rst && (len =? 0)); [split; reflexivity|].
+  destruct (split_key key (ts_conns st)) as [[[pre c] post]|].
+  - destruct (assemble_locked v st c seq syn fin rst len ts); cbn [fst]; [|split; reflexivity].
+    unfold put_back. destruct (tr_closed t); split; reflexivity.
+  - destruct (negb syn && (len =? 0)); [split; reflexivity|].
+    destruct (take_free st) as [[[inh free1] fresh1] alloc1].
+    destruct (assemble_locked v st _ seq syn fin rst len ts); cbn [fst]; [|split; reflexivity].
+    unfold put_back. destruct (tr_closed t); split; reflexivity.
+Qed.
+
+Lemma trun_state_lim : forall v ops st, v_limit v = true -> tinv st -> limv st ->
+  limv (fst (trun_state v st ops)) /\
+  ts_maxPer (fst (trun_state v st ops)) = ts_maxPer st /\ ts_maxTotal (fst (trun_state v st ops)) = ts_maxTotal st.
+Proof.
+  intros v. induction ops as [|o ops IH]; intros st Hv Hi L; cbn [trun_state]; [split; [exact L|split; reflexivity]|].
+  pose proof (tstep_inv v st o Hi) as Hi1. pose proof (tstep_lim v st o Hv Hi L) as L1.
+  destruct (tstep_cfg v st o) as [C1 C2].
+  destruct (tstep v st o) as [st' ou]. cbn [fst] in *.
+  destruct (IH st' Hv Hi1 L1) as [I1 [I2 I3]]. destruct (trun_state v st' ops) as [st2 ev]. cbn [fst] in *.
+  split; [exact I1|]. split; congruence.
+Qed.
+
+(* C11_limit for the repaired tcpassembly: after every call, with a per-connection limit L > 0
+   every connection buffers fewer than L pages, with a total limit T > 0 fewer than T pages are
+   in use.  (During the call at most the pages of the packet in hand are added on top.) *)
+Lemma t_limit : forall v mp mt ops, v_limit v = true ->
+  let st := fst (trun_state v (tinit mp mt) ops) in
+  (mp > 0 -> Forall (fun c => zlen (tc_queue c) < mp) (ts_conns st)) /\ (mt > 0 -> ts_used st < mt).
+Proof.
+  intros v mp mt ops Hv. cbn zeta.
+  assert (L0 : limv (tinit mp mt)). { unfold limv, tinit. cbn. split; [intros; constructor|lia]. }
+  destruct (trun_state_lim v ops _ Hv (tinit_inv mp mt) L0) as [[L1 L2] [C1 C2]].
+  cbn [tinit ts_maxPer ts_maxTotal] in C1, C2. rewrite C1 in L1. rewrite C2 in L2. split; assumption.
+Qed.
+
+(* ------------------------------------------------------------------ C11_age *)
+Lemma flush_loop_fix : forall fuel t r, tr_closed r = true -> flush_loop fuel t r = r.
+Proof. destruct fuel; intros t r H; cbn [flush_loop]; [reflexivity|]. rewrite H. reflexivity. Qed.
+
+Lemma flush_loop_age : forall fuel t r, (tr_closed r = false -> conn_ok (tr_c r)) ->
+  (length (tc_queue (tr_c r)) < fuel)%nat ->
+  tr_closed (flush_loop fuel t r) = true \/ head_older (tr_c (flush_loop fuel t r)) t = false.
+Proof.
+  induction fuel as [|f IH]; intros t r Hok Hl; [lia|]. cbn [flush_loop].
+  destruct (tr_closed r) eqn:Ec; [left; exact Ec|]. specialize (Hok eq_refl).
+  destruct (tc_queue (tr_c r)) as [|p q] eqn:E.
+  - right. unfold head_older. rewrite E. reflexivity.
+  - destruct (tp_seen p <? t) eqn:Et.
+    + set (r1 := skip_flush (tr_c r) (tr_used r) (tr_calls r)).
+      destruct (tr_closed r1) eqn:Ec1; [left; rewrite flush_loop_fix; assumption|].
+      apply IH.
+      * intros _. pose proof (skip_flush_rel (tr_c r) (tr_used r) (tr_calls r) Hok) as R. fold r1 in R.
+        unfold rrel in R. rewrite Ec1 in R. apply R.
+      * assert (Hne : tc_queue (tr_c r) <> []) by (rewrite E; discriminate).
+        pose proof (skip_flush_lt (tr_c r) (tr_used r) (tr_calls r) Hok Hne Ec1) as L. fold r1 in L.
+        unfold qlen, zlen in L. rewrite E in L. cbn [length] in *. lia.
+    + right. unfold head_older. rewrite E. exact Et.
+Qed.
+
+(* what FlushWithOptions guarantees for a connection it leaves in the pool *)
+Definition aged (t : Z) (ca : bool) (c : tconn) : Prop :=
+  head_older c t = false /\ (ca = true -> tc_queue c = [] -> t <= tc_seen c).
+
+Lemma flush_conn_age : forall t ca c u, conn_ok c -> tr_closed (fst (flush_conn t ca c u)) = false ->
+  aged t ca (tr_c (fst (flush_conn t ca c u))).
+Proof.
+  intros t ca c u Hok. unfold flush_conn.
+  pose proof (flush_loop_age (S (length (tc_queue c))) t (mkTR c false u []) (fun _ => Hok) (Nat.lt_succ_diag_r _)) as A.
+  set (r := flush_loop (S (length (tc_queue c))) t (mkTR c false u [])) in *.
+  destruct (ca && negb (tr_closed r) &&
+     match tc_queue (tr_c r) with [] => true | _ :: _ => false end && (tc_seen (tr_c r) <? t)) eqn:Ecc; cbn [fst].
+  - unfold close_connection. cbn [tr_closed]. discriminate.
+  - intros Hc. destruct A as [A|A]; [congruence|]. split; [exact A|].
+    intros Hca Hq. rewrite Hca, Hc, Hq in Ecc. cbn [andb negb] in Ecc. clearbody r. apply Z.ltb_ge in Ecc. exact Ecc.
+Qed.
+
+(* a connection the cut-off does not concern is left alone *)
+Lemma flush_conn_untouched : forall t ca c u, head_older c t = false ->
+  (ca = true -> tc_queue c = [] -> t <= tc_seen c) ->
+  flush_conn t ca c u = (mkTR c false u [], false).
+Proof.
+  intros t ca c u Hh Hi. unfold flush_conn.
+  assert (E : flush_loop (S (length (tc_queue c))) t (mkTR c false u []) = mkTR c false u []).
+  { cbn [flush_loop tr_closed tr_c]. unfold head_older in Hh. destruct (tc_queue c); [reflexivity|]. rewrite Hh. reflexivity. }
+  rewrite E. cbn [tr_closed tr_c negb]. rewrite Hh.
+  destruct ca; [|reflexivity]. cbn [andb]. destruct (tc_queue c) eqn:Eq; [|reflexivity].
+  specialize (Hi eq_refl eq_refl). destruct (tc_seen c <? t) eqn:El; [lia|reflexivity].
+Qed.
+
+(* every batch an age flush hands to a stream starts with data older than the cut-off *)
+Definition call_older (t : Z) (l : list chunk) : Prop :=
+  match l with r :: _ => ch_seen r < t | [] => False end.
+
+Lemma skip_flush_calls : forall c u calls p rest, tc_queue c = p :: rest ->
+  exists l r0 tl, tr_calls (skip_flush c u calls) = calls ++ [l] /\ l = r0 :: tl /\ ch_seen r0 = tp_seen p.
+Proof.
+  intros c u calls p rest E. unfold skip_flush. rewrite E.
+  unfold send_to_connection, add_contiguous, add_next. cbn [w_c]. rewrite E.
+  destruct (pop_page (tc_next c) p) as [r0 nx] eqn:Ep. cbn [w_c w_ret w_used set_queue tc_queue tc_next tc_pages app].
+  match goal with |- context [contiguous ?q ?n] => destruct (contiguous q n) as [[rs1 q1] n1] end. cbn [w_c w_ret w_used set_queue tc_queue tc_next tc_pages].
+  match goal with |- context [contiguous ?q ?n] => destruct (contiguous q n) as [[rs2 q2] n2] end. cbn [w_c w_ret w_used].
+  exists ((r0 :: rs2) ++ rs1), r0, (rs2 ++ rs1).
+  assert (Hs : ch_seen r0 = tp_seen p).
+  { unfold pop_page in Ep. destruct (span_len (tc_next c) (tp_seq p) (tp_len p)). inversion Ep; subst. reflexivity. }
+  match goal with |- context [if ?b then _ else _] => destruct b end; cbn [tr_calls close_connection]; (split; [reflexivity|split; [reflexivity|exact Hs]]).
+Qed.
+
+Lemma flush_loop_calls : forall fuel t r, Forall (call_older t) (tr_calls r) ->
+  Forall (call_older t) (tr_calls (flush_loop fuel t r)).
+Proof.
+  induction fuel as [|f IH]; intros t r H; cbn [flush_loop]; [exact H|].
+  destruct (tr_closed r); [exact H|]. destruct (tc_queue (tr_c r)) as [|p q] eqn:E; [exact H|].
+  destruct (tp_seen p <? t) eqn:Et; [|exact H]. apply IH.
+  destruct (skip_flush_calls (tr_c r) (tr_used r) (tr_calls r) p q E) as [l [r0 [tl [C1 [C2 C3]]]]].
+  rewrite C1. apply Forall_app. split; [exact H|]. constructor; [|constructor]. subst l. cbn [call_older]. lia.
+Qed.
+
+Definition ev_older (t : Z) (e : event) : Prop :=
+  match e with EData _ _ _ _ _ _ seen _ => seen < t | _ => True end.
+
+Lemma flush_conn_events : forall t ca c u, Forall (ev_older t) (res_events (fst (flush_conn t ca c u))).
+Proof.
+  intros t ca c u.
+  assert (H : Forall (call_older t) (tr_calls (fst (flush_conn t ca c u)))).
+  { unfold flush_conn.
+    pose proof (flush_loop_calls (S (length (tc_queue c))) t (mkTR c false u []) (Forall_nil _)) as F.
+    match goal with |- context [if ?b then _ else _] => destruct b end; cbn [fst close_connection tr_calls]; exact F. }
+  unfold res_events. apply Forall_app. split.
+  - induction (tr_calls (fst (flush_conn t ca c u))) as [|l ls IH]; cbn [map]; [constructor|].
+    inversion H as [|? ? Hl Hls]; subst. constructor; [|apply IH; exact Hls].
+    unfold call_event. destruct l as [|r0 tl]; [contradiction|]. cbn [ev_older]. exact Hl.
+  - destruct (tr_closed (fst (flush_conn t ca c u))); constructor; [exact I|constructor].
+Qed.
+
+Lemma flush_conns_events : forall f (P : event -> Prop), (forall c u, Forall P (res_events (fst (f c u)))) ->
+  forall l used, Forall P (fa_ev (flush_conns f l used)).
+Proof.
+  intros f P H. induction l as [|c l IH]; intros used; cbn [flush_conns]; [constructor|].
+  specialize (H c used). destruct (f c used) as [r fl]. cbn [fst] in H. cbn [fa_ev]. apply Forall_app. split; [exact H|apply IH].
+Qed.
+
+(* C11_age *)
+Lemma t_age : forall v st t ca, tinv st -> ts_dead st = false ->
+  let st' := fst (tstep v st (TFlush t ca)) in
+  let ou := snd (tstep v st (TFlush t ca)) in
+  Forall (aged t ca) (ts_conns st') /\ Forall (ev_older t) (to_ev ou).
+Proof.
+  intros v st t ca [Hu HF] Hd. cbn zeta. unfold tstep. rewrite Hd. unfold tflush. cbn [fst snd ts_conns to_ev]. split.
+  - apply (flush_conns_forall (flush_conn t ca) (fun _ => True) (aged t ca)); [| |exact HF|].
+    + intros c u Hok _ Hc. apply flush_conn_age; assumption.
+    + intros; apply flush_conn_rel; assumption.
+    + clear. induction (ts_conns st); constructor; auto.
+  - apply flush_conns_events. apply flush_conn_events.
+Qed.
